@@ -13,7 +13,7 @@ use vmodel::*;
 
 const BIASED: [usize; 12] = [1, 2, 3, 4, 5, 8, 15, 16, 17, 31, 32, 33];
 
-fn boxed_len(t: &mut Tape, (lo, hi): (usize, usize)) -> usize {
+pub(crate) fn boxed_len(t: &mut Tape, (lo, hi): (usize, usize)) -> usize {
     let biased: Vec<usize> = BIASED.iter().copied().filter(|&n| lo <= n && n <= hi).collect();
     match t.weighted(&[1, 1]) {
         0 if !biased.is_empty() => t.pick(&biased),
